@@ -7,15 +7,48 @@ ID = "C06"
 LEVEL = "proof"
 TRUSTED = dc.TRUSTED
 ASSUMPTIONS = ["DATA-reader part; BDAT accounting and the SIZE parameter are tied by the conv/mailargs probes"]
-RULE = ("dr probe with a size budget: exhaustive transition table for budget 0, 1 and 3; every stream over "
+RULE = ("conv probe: DATA bodies with limits |body|-1..|body|+1, BDAT chunk sequences totalling N-2..N+2 and 3N for N in {5,10}, declared SIZE in {N-1,N,N+1,2^32-1,2^32,0}, SMTP and LMTP; dr probe with a size budget: exhaustive transition table for budget 0, 1 and 3; every stream over "
         "{'.',CR,LF,'a'} up to the tier's length x limits {1, |body|-2..|body|+2, far above} x read schedules; random "
         "256-valued streams with random limits. non-trivial = limited reader and stream containing '.', CR or LF")
 THEOREMS = ["C06_bound_data", "C06_oversize_never_complete", "C06_transparent", "data_monitor_accepts_model"]
-nontrivial = lambda case, ans: dc.nontrivial_stream(case) and case.split("\t")[1] != "-"
-signature = dc.signature
-mutate = dc.mutate
-shrink = dc.shrink
+nontrivial = lambda case, ans: (dc.nontrivial_stream(case) and case.split("\t")[1] != "-") if case.startswith('dr') else cc.nontrivial(case, ans)
+signature = lambda case, ans: dc.signature(case, ans) if case.startswith('dr') else cc.signature(case, ans)
+mutate = lambda case, rng: dc.mutate(case, rng) if case.startswith('dr') else []
+shrink = lambda case: dc.shrink(case) if case.startswith('dr') else P.shrink_resegment(case)
 KNOWN = {}
+
+
+from vlib.props import convprops as P, convcommon as cc
+from vlib import convgen as g
+_proj = lambda case, ans: cc.project(ans, codes="exact", enh=False, drecs="full")
+
+
+def size_convs(tier, rng):
+    """BDAT accounting and the SIZE parameter around the limit"""
+    cases = []
+    for N in (5, 10):
+        for lm in (0, 1):
+            cfg = dict(maxmsg=N, lmtp=lm)
+            # declared SIZE
+            for size in (N - 1, N, N + 1, 4294967295, 4294967296, 0):
+                c = g.Conv(cfg)
+                c.add((b"LHLO" if lm else b"EHLO") + b" x\r\n")
+                c.add(b"MAIL FROM:<s@x> SIZE=%d\r\n" % size, MAIL="ok" if size <= N else [])
+                c.add(b"RSET\r\n")
+                cases.append(c.case(seg="line", rng=rng))
+            # chunk sequences whose total is N-2..N+2 and far above
+            for total in (N - 2, N - 1, N, N + 1, N + 2, 3 * N):
+                for parts in (1, 2, 3):
+                    sizes = [total // parts] * parts
+                    sizes[-1] += total - sum(sizes)
+                    c = g.Conv(cfg)
+                    P.envelope(c, bool(lm))
+                    for i, k in enumerate(sizes):
+                        c.add(b"BDAT %d" % k + (b" LAST" if i == parts - 1 else b"") + b"\r\n" + b"z" * k,
+                              **(dict(DATA=g.ddec(rsz=rng.choice([1, 3, 4096]))) if i == 0 else {}))
+                    P.markers(c)
+                    cases.append(c.case(seg=rng.choice(["one", "line", "rand"]), rng=rng))
+    return cases
 
 
 def groups(tier, rng):
@@ -38,7 +71,9 @@ def groups(tier, rng):
                               sched(rng.choice(["all", 1, 2, 3, 7, "mixed"]), len(s), rng), rng.choice(["eof", "err"])))
     return [Group("dr/step-table-budget", table, exhaustive=True, theorems=THEOREMS),
             Group("dr/enumerated-limits", enum, theorems=THEOREMS),
-            Group("dr/random-limits", rnd, theorems=THEOREMS)]
+            Group("dr/random-limits", rnd, theorems=THEOREMS),
+            Group("conv/data-limits", P.data_convs(tier, rng, limits=(1,)), project=_proj, theorems=THEOREMS),
+            Group("conv/size-and-bdat", size_convs(tier, rng), project=_proj, theorems=THEOREMS)]
 
 
 def replay_groups(path):
